@@ -636,6 +636,10 @@ func (p discardingFlushPort) Read(b []byte) (int, error)  { return p.c.Read(b) }
 func (p discardingFlushPort) Write(b []byte) (int, error) { return p.c.Write(b) }
 func (p discardingFlushPort) Close() error                { return p.c.Close() }
 func (p discardingFlushPort) Flush() error {
+	// a transport operation like any other: other tasks may be scheduled before it takes effect
+	if p.c.sim.ParkL("fl:"+p.c.Name, "flush", p.c.locker(), always) == Drained {
+		return nil
+	}
 	p.c.lock()
 	now := time.Now()
 	kept := p.c.in.segs[:0]
